@@ -208,7 +208,7 @@ Section Vocab.
     intros Hin Hm.
     pose proof (Subseq_in _ _ _ (vocab_contained_g e ms Hin) Hm) as Hmem.
     apply In_nth_error in Hmem as [i Hi]. exists i. split; [exact Hi|].
-    pose proof (proj1 (forallb_forall _ _) Huniq _ Hin) as Hu. unfold enum_unique in Hu. simpl in Hu.
+    pose proof (proj1 (forallb_forall _ _) Huniq _ Hin) as Hu. unfold enum_unique in Hu. cbn [fst] in Hu.
     apply andb_true_iff in Hu as [Hu _]. apply andb_true_iff in Hu as [_ Hu].
     unfold zone_enum_lookup. rewrite !enum_lookup_ms.
     pose proof (lookup_ms_value e _ i (name, value) Hu Hi) as Hv. cbn [snd] in Hv. rewrite Hv.
